@@ -213,7 +213,7 @@ static void vf_init(void)
     sw_init();
     pts_per_case = 2000;
     if (vf.tier) { chunks = main_cfg || all_on ? 120 : 16; }
-    else { chunks = 6; }
+    else { chunks = main_cfg ? 6 : 2; }
     if (getenv("VF_C10_CHUNKS")) { chunks = strtoull(getenv("VF_C10_CHUNKS"), NULL, 0); }
 }
 static uint64_t vf_ncases(int tier) { (void)tier; return (uint64_t)(NUF + X_N) * chunks; }
